@@ -180,7 +180,7 @@ Lemma parse_ok_self s : is_ok (Command.parse s) = true -> Command.parse s = Ok s
 Proof.
   unfold Command.parse. destruct (negb (has_prefix top s)); [discriminate|].
   destruct ((1 <? length s)%nat && (last s 0 =? sep)); [discriminate|].
-  destruct (negb (str_eqb s (to_lower s))); [discriminate|]. reflexivity.
+  destruct (negb (Utf8.lower_fixed s)); [discriminate|]. reflexivity.
 Qed.
 
 Theorem dlg_new_wf iss aud sub cmd pol ng r12 meta nbf exp t :
